@@ -193,8 +193,11 @@ def run_api(ctx):
     steps = cnt.get("steps", 0)
     if steps < 8 * len(bl):
         raise vf.MachineryError("C04 replay executed only %d steps of %d behaviours" % (steps, len(bl)))
+    # wire_byte_served: a wire-born request answered from the entry's stored bytes while still undecoded
+    # (serveHitFromWire -> serveWireIntoRequest); wire_byte_rehit_later: a second such hit on the same stored entry
+    # at a later instant (what a reply-TTL patch leaking into the stored bytes needs to show)
     for need in ("served_via_msg", "served_via_msgw", "served_via_wire", "served_via_get", "op_PrefetchComplete",
-                 "op_HitCut", "op_HitDenial", "op_Chase", "op_TickA"):
+                 "op_HitCut", "op_HitDenial", "op_Chase", "op_TickA", "wire_byte_served", "wire_byte_rehit_later"):
         if cnt.get(need, 0) == 0:
             raise vf.MachineryError("vacuous replay: %s never happened" % need)
     info = {"behaviours": len(bl), "steps": steps, "drift": res["drift"], "drift_notes": res.get("drift_notes", []),
